@@ -703,6 +703,9 @@ def r19_4(ctx, counts: dict[str, int]) -> RuleResult:
 def run(ctx) -> dict:
     counts: dict[str, int] = {}
     results = [r19_1(ctx, counts), r19_2(ctx, counts), r19_3(ctx, counts), r19_4(ctx, counts)]
+    # the installed Unicode tables and the lazy escape subsets are process-wide state too
+    from .c13_unicode import r13_4
+    results.append(r13_4(ctx, counts))
     return {
         'results': results,
         'counts': counts,
